@@ -8,20 +8,10 @@ From GoCarProofs Require Import BytesFacts VarintFacts CidFacts HeaderFacts Scan
 From Coq Require Import Permutation.
 
 (* ---- small facts ---------------------------------------------------------------------------------- *)
-Lemma kind_of_0 kn : kn = 0 -> kind_of kn = KBlockstore.
-Proof. intros ->. reflexivity. Qed.
-Lemma kind_of_stream kn : kind_of kn = KStorage false <-> kn = 3.
-Proof.
-  unfold kind_of. destruct (kn =? 0) eqn:E0; [split; [discriminate|lia]|].
-  destruct (kn =? 3) eqn:E3; split; intros H; try reflexivity; try lia; try discriminate.
-Qed.
-Lemma kind_of_not_bs kn : kn <> 0 -> kind_of kn <> KBlockstore.
-Proof. intros H. unfold kind_of. replace (kn =? 0) with false by lia. destruct (kn =? 3); discriminate. Qed.
-
 Lemma kind_of_bs kn : kind_of kn = KBlockstore <-> kn = 0.
 Proof.
   unfold kind_of. destruct (kn =? 0) eqn:E0; [split; [lia|reflexivity]|].
-  destruct (kn =? 3); split; intros H; try discriminate; lia.
+  destruct ((kn =? 3) || (kn =? 4)); split; intros H; try discriminate; lia.
 Qed.
 
 Lemma roots_ok_not_sticky roots : roots_ok roots ->
@@ -126,12 +116,12 @@ Section Session.
   Qed.
 
   (* ---- open ------------------------------------------------------------------------------------ *)
-  Lemma open_new_clean faults s :
-    open_new k o nilroots roots faults = Ok s ->
-    FInv s [] /\ Clean s [] /\ ws_closed s = false /\ ws_finalized s = false.
+  Lemma open_new_clean k' faults s :
+    open_new k' o nilroots roots faults = Ok s ->
+    Clean s [] /\ ws_opts s = o /\ ws_kind s = k' /\ ws_idx s = [] /\ ws_closed s = false /\ ws_finalized s = false.
   Proof.
     unfold open_new, base_fits in *.
-    destruct (match k with KStorage false => negb (w_v1 o) | _ => false end); [discriminate|].
+    destruct (match k' with KStorage false => negb (w_v1 o) | _ => false end); [discriminate|].
     set (hb := enc_header (roots_opt nilroots roots) 1).
     assert (Hchunks : header_chunks nilroots roots = put_uv (0 + blen hb) :: [hb]) by reflexivity.
     assert (Hcat : concat (header_chunks nilroots roots) = ld hb) by apply concat_header_chunks.
@@ -142,14 +132,13 @@ Section Session.
       rewrite data_base_v1 in * by exact Ev1.
       destruct (write_chunks_end _ _ _ _ _ _ eq_refl Ew) as (w & Hw & Ha & Hok & _).
       destruct (Hok eq_refl) as [-> _]. cbn [d_file app] in Hw. rewrite Hcat in *.
-      assert (HC : Clean (mkws dv2 [] (abs - 0) false false roots o k) []).
+      assert (HC : Clean (mkws dv2 [] (abs - 0) false false roots o k') []).
       { constructor; cbn [ws_pos ws_idx ws_finalized]; try reflexivity; try constructor.
         - unfold ws_file. cbn [ws_dev]. unfold pre_of. rewrite Ev1. unfold payload.
           cbn [sections map concat app]. rewrite app_nil_r. exact Hw.
         - unfold payload. cbn [sections map concat]. rewrite app_nil_r. cbn [d_file] in Ha. rewrite blen_nil in Ha. fold hb. lia.
         - unfold bs_sticky. cbn [ws_roots]. apply roots_ok_not_sticky. apply Hhdr. }
-      split; [|split; [exact HC|split; reflexivity]].
-      constructor; try reflexivity. right. exact HC.
+      split; [exact HC|]. repeat split; reflexivity.
     - destruct (dev_write (mkdev [] [] faults) 0 pragma) as [[d1 n1] ok1] eqn:E1.
       destruct ok1; cbn [negb]; [|discriminate].
       destruct (write_chunks d1 (data_base o) (header_chunks nilroots roots)) as [[dv2 abs] ok2] eqn:Ew.
@@ -162,15 +151,34 @@ Section Session.
       destruct (write_chunks_beyond _ _ _ _ _ _ (put_uv_nonempty _) Hge Ew)
         as (Hw & Ha & _).
       cbn [concat] in Hw, Ha. rewrite app_nil_r, N.add_0_l in Hw, Ha. change (put_uv (blen hb) ++ hb) with (ld hb) in Hw, Ha. rewrite Hf1, blen_pragma in Hw.
-      assert (HC : Clean (mkws dv2 [] (abs - data_base o) false false roots o k) []).
+      assert (HC : Clean (mkws dv2 [] (abs - data_base o) false false roots o k') []).
       { constructor; cbn [ws_pos ws_idx ws_finalized]; try reflexivity; try constructor.
         - unfold ws_file. cbn [ws_dev]. unfold pre_of. rewrite Ev1. unfold payload.
           cbn [sections map concat]. rewrite app_nil_r. rewrite Hw, Hbase, <- app_assoc.
           replace (51 + w_dpad o - 11) with (40 + w_dpad o) by lia. reflexivity.
         - unfold payload. cbn [sections map concat]. rewrite app_nil_r. fold hb. lia.
         - unfold bs_sticky. cbn [ws_roots]. apply roots_ok_not_sticky. apply Hhdr. }
-      split; [|split; [exact HC|split; reflexivity]].
-      constructor; try reflexivity. right. exact HC.
+      split; [exact HC|]. repeat split; reflexivity.
+  Qed.
+
+  Lemma clean_set_kind s st k' : Clean s st -> Clean (set_kind s k') st.
+  Proof. intros [H1 H2 H3 H4 H5 H6]. constructor; assumption. Qed.
+
+  Lemma fopen_clean faults s :
+    fopen kn o nilroots roots faults = Ok s ->
+    FInv s [] /\ Clean s [] /\ ws_closed s = false /\ ws_finalized s = false.
+  Proof.
+    unfold fopen. destruct (kn =? 4) eqn:E4.
+    - destruct (open_new (KStorage true) o nilroots roots faults) as [s1|e] eqn:Eo; [|discriminate].
+      intros H; inversion H; subst s. clear H.
+      destruct (open_new_clean _ _ _ Eo) as (HC & Ho & Hk & Hi & Hc & Hf).
+      pose proof (clean_set_kind s1 [] (KStorage false) HC) as HC'.
+      split; [|split; [exact HC'|split; [exact Hc|exact Hf]]].
+      constructor; [exact Ho| |cbn [set_kind ws_idx]; rewrite Hi; reflexivity|right; exact HC'].
+      unfold k, kind_of. replace (kn =? 0) with false by lia. rewrite E4, orb_true_r. reflexivity.
+    - intros Eo. destruct (open_new_clean _ _ _ Eo) as (HC & Ho & Hk & Hi & Hc & Hf).
+      split; [|split; [exact HC|split; [exact Hc|exact Hf]]].
+      constructor; [exact Ho|exact Hk|rewrite Hi; reflexivity|right; exact HC].
   Qed.
 
   (* ---- one block ------------------------------------------------------------------------------------ *)
